@@ -538,6 +538,30 @@ impl<T> Block for NoCopyFileSink<T>""")]),
     dict(name="m2r4+never-without-closed", prop="C04", expect="C04.R",
          patch="/verif/neutral_seeded/m2-r4/patch.diff", edits=[],
          post_edits=[E("src/stream.rs", "            (true, true) => true,", "            (_, true) => true,")]),
+    dict(name="m3r5+again-arm-forgets-done", prop="C06", expect="C06.R1:<graph::Graph as graph::GraphRunner>::run:Again",
+         patch="/verif/neutral_seeded/m3-r5/patch.diff", edits=[],
+         post_edits=[E("src/graph.rs", """                    pass.done = false;
+                    pass.all_idle = false;""", """                    pass.all_idle = false;""")]),
+    dict(name="m3r5+eof-arm-does-not-retire", prop="C06", expect="C06.R2:<graph::Graph as graph::GraphRunner>::run:EOF",
+         patch="/verif/neutral_seeded/m3-r5/patch.diff", edits=[],
+         post_edits=[E("src/graph.rs", """                BlockRet::EOF => {
+                    *block_eof = true;
+                }""", """                BlockRet::EOF => {}""")]),
+    dict(name="m3r5+wait-verdict-ignored", prop="C05", expect="C05.R1:",
+         patch="/verif/neutral_seeded/m3-r5/patch.diff", edits=[],
+         post_edits=[E("src/mtgraph.rs", "                                if b.eof() || stream_eof {", "                                if b.eof() {")]),
+    dict(name="m2r5+peer-gone-means-two", prop="C04", expect="C04.R2:",
+         patch="/verif/neutral_seeded/m2-r5/patch.diff", edits=[],
+         post_edits=[E("src/stream.rs", "    Arc::strong_count(handle) == 1", "    Arc::strong_count(handle) == 2")]),
+    dict(name="m4r5+macro-no-output-clamp", prop="C19", expect="C19.R2:",
+         patch="/verif/neutral_seeded/m4-r5/patch.diff", edits=[],
+         post_edits=[E("rustradio_macros/src/lib.rs", "                    let n = n #(.min(#out_names.len()))*;", "                    let n = n;")]),
+    dict(name="m4r5+macro-no-take", prop="C08", expect="C08.R1:",
+         patch="/verif/neutral_seeded/m4-r5/patch.diff", edits=[],
+         post_edits=[E("rustradio_macros/src/lib.rs", "#zipped_inputs.take(n).enumerate()", "#zipped_inputs.enumerate()")]),
+    dict(name="m4r5+macro-tag-filter-le", prop="C12", expect="C12.R2:",
+         patch="/verif/neutral_seeded/m4-r5/patch.diff", edits=[],
+         post_edits=[E("rustradio_macros/src/lib.rs", ".filter(|t| t.pos() == pos)", ".filter(|t| t.pos() <= pos)")]),
     dict(name="m1r4+assert-helper-checks-nothing", prop="C01", expect="C01.R1:circular_buffer::Buffer::produce:",
          patch="/verif/neutral_seeded/m1-r4/patch.diff", edits=[],
          post_edits=[E("src/circular_buffer.rs", """        assert!(
